@@ -315,7 +315,19 @@ func (d *duplexHTTPCall) makeRequest() {
 		return
 	}
 	d.response = response
+	if err := d.ctx.Err(); err != nil {
+		// The context ended while the request was in flight and the response won
+		// the race. The call has failed with the context's error, whatever this
+		// response says.
+		d.SetError(err)
+		return
+	}
 	if err := d.validateResponse(response); err != nil {
+		if ctxErr := d.ctx.Err(); ctxErr != nil {
+			// Validation may read from the body, which fails once the context ends.
+			d.SetError(ctxErr)
+			return
+		}
 		d.SetError(err)
 		return
 	}
